@@ -1033,3 +1033,9 @@ impl<P: Protocol> GenericCloud<MockDevice, P, MockSocket, MockTimeSource> {
         self.socket.address().unwrap().port() as usize
     }
 }
+
+// Verification hooks: compiled only with --cfg dswd_vpncloud_verif; the code lives outside of this repository
+#[cfg(dswd_vpncloud_verif)]
+pub mod verif_hooks {
+    include!(concat!(env!("VPNCLOUD_VERIF_DRIVER_DIR"), "/hooks_cloud.rs"));
+}
